@@ -120,6 +120,21 @@ func isGreedyDotAllStar(re *syntax.Regexp) bool {
 		len(re.Sub) == 1 && re.Sub[0].Op == syntax.OpAnyChar
 }
 
+// suffixIsLiteralThenWildcard reports whether the suffix part (inner element and
+// everything after it) consists of exactly two elements: a plain literal and
+// the trailing wildcard. Only then does an occurrence of the literal prove a
+// match; with anything in between ((?s:.*)foo[\w.]+(?s:.*) on "foo") it does not.
+func suffixIsLiteralThenWildcard(re *syntax.Regexp) bool {
+	if re == nil || re.Op != syntax.OpConcat || len(re.Sub) != 2 {
+		return false
+	}
+	lit := re.Sub[0]
+	for lit.Op == syntax.OpCapture && len(lit.Sub) == 1 {
+		lit = lit.Sub[0]
+	}
+	return lit.Op == syntax.OpLiteral && lit.Flags&syntax.FoldCase == 0
+}
+
 // lastElement returns the last element of a concatenation (re itself otherwise).
 func lastElement(re *syntax.Regexp) *syntax.Regexp {
 	for re != nil && (re.Op == syntax.OpConcat || re.Op == syntax.OpCapture) && len(re.Sub) > 0 {
@@ -288,7 +303,8 @@ func NewReverseInnerSearcher(
 	// both wildcards are greedy (?s:.)*: `.` without the s flag stops at a
 	// newline, .+ needs a character and a lazy star prefers to consume nothing.
 	wholeInput := universalPrefix && universalSuffix &&
-		isGreedyDotAllStar(innerInfo.PrefixAST) && isGreedyDotAllStar(lastElement(innerInfo.SuffixAST))
+		isGreedyDotAllStar(innerInfo.PrefixAST) && isGreedyDotAllStar(lastElement(innerInfo.SuffixAST)) &&
+		suffixIsLiteralThenWildcard(innerInfo.SuffixAST)
 
 	s := &ReverseInnerSearcher{
 		forwardNFA:      suffixNFA,
